@@ -77,23 +77,56 @@ def slab_cases(rng, tier):
     return cs
 
 
+def structured(rng, n, t, kind):
+    """data closed under xor / scaling that data-dependent kernel shortcuts mistake for 'zero':
+    1 high-nibble-only bytes, 2 low-nibble-only bytes, 3 symbols whose first half is zero, 4 whose second half is
+    zero, 5 sparse one-hot bytes, 0 random"""
+    if kind == 0:
+        return CG.rand_data(rng, n)
+    out = []
+    for i in range(n):
+        pos = i % t
+        if kind == 1:
+            out.append(rng.below(16) << 4)
+        elif kind == 2:
+            out.append(rng.below(16))
+        elif kind == 3:
+            out.append(0 if pos % 64 < 32 else rng.range(1, 255))
+        elif kind == 4:
+            out.append(0 if pos % 64 >= 32 else rng.range(1, 255))
+        else:
+            out.append((1 << rng.below(8)) if rng.below(9) == 0 else 0)
+    return out
+
+
 def meta_cases(rng, tier):
     """(label, case) groups on the real encoder: single block, N = 1"""
     groups = []
     ks = [1, 5, 10, 11, 26, 33, 101] if tier == "quick" else [1, 2, 9, 10, 11, 12, 13, 26, 27, 49, 50, 101, 102, 250, 251]
-    for k in ks:
-        t = rng.choice([2, 3, 5, 8, 16])
+    ks = [(k, None, 0) for k in ks]
+    # symbol sizes of at least one vector width with structured contents (data-dependent kernel paths)
+    for kind in (1, 2, 3, 4, 5):
+        for t in ((64, 100) if tier == "quick" else (64, 65, 100, 128, 130, 200)):
+            ks.append((rng.choice([4, 10, 12, 20]), t, kind))
+    for k, tfix, kind in ks:
+        t = tfix if tfix else rng.choice([2, 3, 5, 8, 16])
         f = k * t
-        a = CG.rand_data(rng, f)
-        b = CG.rand_data(rng, f)
+        a = structured(rng, f, t, kind)
+        b = structured(rng, f, t, kind)
         c = rng.choice([2, 0x1D, 0xFF, rng.range(2, 255)])
         nrep = 6
         hdr = [f, t, 1, 1, 1, nrep]
         mk = lambda d, tt=t, ff=f: C.Case("enc_packets", [ff, tt, 1, 1, 1, nrep] + d)
         j = rng.below(t)
         col = [a[m * t + j] for m in range(k)]
+        # decoding side: the same ESI set (one source symbol lost, repair symbols instead) at T and for column j at T = 1
+        lost = rng.below(k)
+        esis = [e for e in range(k) if e != lost] + [k + rng.below(40), k + 40 + rng.below(1000)]
+        dec_t = CG.sbd_case(rng, k, t, 1, 1, 0, [esis], a)
+        dec_1 = CG.sbd_case(rng, k, 1, 1, 1, 0, [esis], col)
         groups.append({"k": k, "t": t, "c": c, "j": j, "A": mk(a), "B": mk(b), "AxB": mk([x ^ y for x, y in zip(a, b)]),
-                       "cA": mk([gmul(c, x) for x in a]), "col": C.Case("enc_packets", [k, 1, 1, 1, 1, nrep] + col)})
+                       "cA": mk([gmul(c, x) for x in a]), "col": C.Case("enc_packets", [k, 1, 1, 1, 1, nrep] + col),
+                       "decT": dec_t, "dec1": dec_1, "data": a, "colv": col})
     return groups
 
 
@@ -101,7 +134,7 @@ def cases(rng, tier):
     cs = slab_cases(rng, tier)
     cases.groups = meta_cases(rng, tier)
     for g in cases.groups:
-        cs += [g["A"], g["B"], g["AxB"], g["cA"], g["col"]]
+        cs += [g["A"], g["B"], g["AxB"], g["cA"], g["col"], g["decT"], g["dec1"]]
     return cs
 
 
@@ -118,7 +151,7 @@ def evaluate(cs, rep, tier):
     impl_s, model_s, dis = G.diff_impl_model(slab, PROFILES, "slab")
     counter = []
     groups = getattr(cases, "groups", [])
-    flat = [g[k] for g in groups for k in ("A", "B", "AxB", "cA", "col")]
+    flat = [g[k] for g in groups for k in ("A", "B", "AxB", "cA", "col", "decT", "dec1")]
     res = dict(zip([c.key() for c in flat], C.run_impl(flat, "release"))) if flat else {}
     for g in groups:
         t = g["t"]
@@ -128,6 +161,11 @@ def evaluate(cs, rep, tier):
         except (KeyError, ValueError, IndexError):
             counter.append({"input": g["A"].impl_line()[:300], "expected": "packets", "observed": "encoder failed", "oracle": "metamorphic"})
             continue
+        rt, r1 = res[g["decT"].key()].split(), res[g["dec1"].key()].split()
+        if rt[:2] != ["1", "1"] or [int(x) for x in rt[2:]] != g["data"]:
+            counter.append({"input": g["decT"].impl_line()[:500], "expected": "decoding returns the block at this symbol size", "observed": " ".join(rt[:20]), "oracle": "decode independent of T"})
+        elif r1[:2] != ["1", "1"] or [int(x) for x in r1[2:]] != g["colv"]:
+            counter.append({"input": g["dec1"].impl_line()[:500], "expected": f"decoding byte column {g['j']} alone (T = 1) returns that column", "observed": " ".join(r1[:20]), "oracle": "decode independent of T"})
         for (s1, e1, d1), (_, _, d2), (_, _, d3), (_, _, d4), (_, _, d5) in zip(pa, pb, px, pc, pcol):
             if [x ^ y for x, y in zip(d1, d2)] != d3:
                 counter.append({"input": g["AxB"].impl_line()[:400], "expected": f"packet ({s1},{e1}) of A xor B = xor of packets", "observed": str(d3), "oracle": "additivity"})
